@@ -674,8 +674,13 @@ Theorem stream_wellformed_b : forall descs root tree data tr frames,
   stream_ok_b (map fr_sum frames) = true.
 Proof.
   intros descs root tree data tr frames Hwf Hex.
-  unfold defer_plan_wf in Hwf. repeat (apply andb_true_iff in Hwf; destruct Hwf as [Hwf ?]).
-  unfold descs_wf in Hwf. apply andb_true_iff in Hwf. destruct Hwf as [Hsorted Hall].
+  unfold defer_plan_wf in Hwf.
+  apply andb_true_iff in Hwf. destruct Hwf as [Hwf _].
+  apply andb_true_iff in Hwf. destruct Hwf as [Hwf _].
+  apply andb_true_iff in Hwf. destruct Hwf as [Hwf _].
+  apply andb_true_iff in Hwf. destruct Hwf as [Hwf Hgn].
+  apply andb_true_iff in Hwf. destruct Hwf as [Hdw Hshape].
+  unfold descs_wf in Hdw. apply andb_true_iff in Hdw. destruct Hdw as [Hsorted Hall].
   assert (Hids : NoDup (map dd_id descs)) by (apply sorted_N_NoDup; exact Hsorted).
   assert (Hpos : forall d, In d descs -> 0 < dd_id d).
   { intros d Hd. rewrite forallb_forall in Hall. specialize (Hall d Hd).
@@ -685,7 +690,7 @@ Proof.
   destruct (init_state descs root tree data) as [k G] eqn:Hi.
   destruct (run descs root tr k G) as [[k' G'] |] eqn:Hr; [| discriminate].
   destruct (task_done k') eqn:Hd; [| discriminate]. inversion Hex; subst.
-  eapply inv_final; [exact Hids | exact Hpos | | exact Hd].
+  eapply inv_final; [| exact Hd].
   eapply inv_run; [exact Hids | exact Hpos | | exact Hr].
   eapply inv_init; eauto.
 Qed.
